@@ -46,13 +46,13 @@ GEN3 = GEN + ["ProbTable"]      # generated tables Props/Pipeline3.lean depends 
 THEOREMS3 = {
     "C17": ["KaVerif.PIPE_dispatch_table3", "KaVerif.PIPE_instant_literal", "KaVerif.PIPE_instant_parse_stage", "KaVerif.PIPE_instant_ops",
             "KaVerif.PIPE_instant_node", "KaVerif.PIPE_instant_add_sub", "KaVerif.PIPE_instant_floor_ceil", "KaVerif.PIPE_instant_cmp_sign",
-            "KaVerif.PIPE_instant_non_time"],
+            "KaVerif.PIPE_instant_non_time", "KaVerif.PIPE_instant_display"],
+    "C15": ["KaVerif.PIPE_instant_display"],
     "C08": ["KaVerif.PIPE_dispatch_table3", "KaVerif.PIPE_prob_constructors", "KaVerif.PIPE_prob_mean", "KaVerif.PIPE_prob_single",
             "KaVerif.PIPE_prob_eq", "KaVerif.PIPE_prob_double", "KaVerif.PIPE_prob_mixed_rejected", "KaVerif.PIPE_prob_complement",
             "KaVerif.PIPE_prob_mass", "KaVerif.PIPE_prob_range"],
     "C06": ["KaVerif.PIPE_instant_parse_stage", "KaVerif.PIPE_prob_constructors"],
     "C09": ["KaVerif.PIPE_instant_cmp_sign", "KaVerif.PIPE_instant_node"],
-    "C10": ["KaVerif.PIPE_dispatch_table3"],
 }
 ALL_THEOREMS3 = sorted({t for ts in THEOREMS3.values() for t in ts})
 RULE = ("whole programs (1-4 statements, depth <= 4) mixing arithmetic on ints / fractions / floats / scientific and based literals, "
